@@ -23,7 +23,11 @@ for d in sorted(os.listdir(src)):
     for f in os.listdir(f'{src}/{d}'):
         if f.startswith('demo_'): shutil.copy(f'{src}/{d}/{f}', f'{out}/{f}')
     m = json.load(open(f'{src}/{d}/meta.json'))
-    tn = 'TestDemo' + d.replace('-', '_')
+    names = []
+    for f in os.listdir(f'{src}/{d}'):
+        if f.startswith('demo_'):
+            names += re.findall(r'^func (Test[A-Za-z0-9_]*)', open(f'{src}/{d}/{f}').read(), re.M)
+    tn = "'^(" + '|'.join(names) + ")$'"
     m['demo_cmd'] = f"cp /verif/seeded/{d}/demo_*_test.go {m['demo_pkg_dir']}/ && go test -vet=off -count=1 -run {tn} ./{m['demo_pkg_dir']}/   (from the root of a scratch worktree; GOFLAGS=-mod=mod GOPROXY=off GOSUMDB=off GOTOOLCHAIN=local)"
     m['confirmed_here'] = {
         'against_repo_head': head,
